@@ -7,6 +7,7 @@ from ..lit import canon
 
 ID = "C01"
 LEVEL = "exploration"
+W3_CONTRACTS = ['K1']  # the repository's own tests are also run under these contracts
 DECIDING = ["Condition._filter", "FilteredData.__init__"]
 RULE = ("case = (leaf condition term, non-empty list/mapping); W1: all 149 (class, callable) pairs + "
         "aliases x argument variants (well-typed and hostile) on 'zoo' containers holding every "
